@@ -331,3 +331,33 @@ def check(ctx):
                     entries.append(f)
     defect_scope(ctx, "D-scope", entries, max_depth=1, floor=40,
                  label="scope: _resolve/action/_prepare of every actor class the builder can name")
+    interrupters_only(ctx)
+
+
+def interrupters_only(ctx):
+    """Frame.precur stops at the first act whose action returns a truthy value ("transition taken").  Only actors whose
+    result *means* that may return one: interrupters (Transiter, Suspender), needs (their result is consumed by the
+    interrupter that owns them) and fiats (documented to report whether the state was reached).  Any other action must
+    return None: a put/inc/copy/log that returns the object it updated ends transition evaluation for the tick wherever it
+    is used in the precur context."""
+    ctx.rule("T4-result", "only Transiter/Suspender, Need* and Fiat* actions return a value; every other Actor.action returns None")
+    ALLOWED = ("Transiter", "Suspender")
+    n = 0
+    for m in ctx.repo.modules.values():
+        if m.is_test or "/ioflo/base/" not in "/" + m.relpath and "/ioflo/trim/" not in "/" + m.relpath:
+            continue
+        for c in [x for x in m.tree.body if isinstance(x, ast.ClassDef)]:
+            f = next((x for x in c.body if isinstance(x, ast.FunctionDef) and x.name == "action"), None)
+            if f is None:
+                continue
+            n += 1
+            ctx.use(f)
+            rets = [x for x in ast.walk(f) if isinstance(x, ast.Return) and x.value is not None and
+                    not (isinstance(x.value, ast.Constant) and x.value.value is None)]
+            if not rets:
+                continue
+            ok = c.name in ALLOWED or c.name.startswith(("Need", "Fiat")) or m.relpath.endswith(("needing.py", "fiating.py"))
+            ctx.check(ok, "T4-result", rets[0], "%s.action returns %s" % (c.name, src(rets[0].value)[:40]),
+                      "Frame.precur takes any truthy action result for a taken transition: after this action runs in a precur context the "
+                      "remaining transition clauses of the frame and of every frame below it are not evaluated in that tick")
+    ctx.floor("T4-result:actions", n, 50)
